@@ -1,4 +1,5 @@
 import BddVerif.Lemmas.CountSupport
+import BddVerif.Lemmas.CountIter
 import BddVerif.Lemmas.C02Built
 import BddVerif.Lemmas.OpConsistent
 /-!
@@ -71,6 +72,31 @@ theorem exact_card_le {A : Arr} {n : Nat} (h : WFo A n) : exactCard A ≤ 2 ^ n 
 theorem clause_card_spec {A : Arr} {n : Nat} (h : WFo A n) :
     clauseCardO A = .ok (pathsF A (n + 1) (root A)).length := by
   rw [clauseCardO_wfo h, cardF_false_eq_paths]
+
+/-- `exact_clause_cardinality` equals the number of items the `sat_clauses` iterator yields: for a
+    post-order reduced array (with its terminals in place), unfolding the model of `BddPathIterator::next`
+    from `BddPathIterator::new` (C08's `Iter.pathList`, any fuel above the number of paths) returns
+    without panic a list `items`, and `exactClauseCard = items.length` -/
+theorem clause_card_eq_iterator_count {A : Arr} {n : Nat} (h : Red A n) (hp : Prefix (mkTrue n) A)
+    (fuel : Nat) (hf : (B.Iter.pathsOf A).length < fuel) :
+    ∃ items, B.Iter.pathList A fuel = .ok items ∧ clauseCardO A = .ok items.length ∧ clauseCard A = items.length := by
+  have hw := wfo_of_red h hp
+  have hn : numVars A = n := numVars_of_wf hw
+  have hit := (B.Props.C08.path_iter_eq h hn fuel hf).1
+  have hc := clauseCardO_eq_iterPaths h hw
+  exact ⟨_, hit, hc, by unfold clauseCard; rw [hc]⟩
+
+/-- the same for every canonical array (the constant false included: no item, count 0) -/
+theorem clause_card_eq_iterator_count_canonical {A : Arr} (h : Canonical A)
+    (fuel : Nat) (hf : (B.Iter.pathsOf A).length < fuel) :
+    ∃ items, B.Iter.pathList A fuel = .ok items ∧ clauseCardO A = .ok items.length := by
+  rcases h.cases with ⟨e, _⟩ | ⟨hred, hpre, _⟩
+  · have hs : A.size = 1 := by rw [e]; rfl
+    obtain ⟨f', rfl⟩ : ∃ f', fuel = f' + 1 := ⟨fuel - 1, by omega⟩
+    refine ⟨[], (B.Props.C08.false_constant A hs f').1, ?_⟩
+    unfold clauseCardO; simp [hs]
+  · obtain ⟨items, h1, h2, _⟩ := clause_card_eq_iterator_count hred hpre fuel hf
+    exact ⟨items, h1, h2⟩
 
 /-! ## the counting laws, for every `n` -/
 
@@ -202,6 +228,10 @@ example : cnt 3 (fun v => evW exX0X2 3 v (root exX0X2)) = 2 := by decide
 def exPermuted : Arr := #[⟨3, 0, 0⟩, ⟨3, 1, 1⟩, ⟨1, 0, 3⟩, ⟨2, 0, 1⟩, ⟨0, 2, 3⟩]
 example : WFo exPermuted 3 := wfoB_sound (by decide)
 example : exactCardO exPermuted = .ok 3 := by rfl
+
+/-- iterator tie on a concrete diagram: one path, one item -/
+example : ∃ items, B.Iter.pathList exX0X2 5 = .ok items ∧ clauseCardO exX0X2 = .ok items.length :=
+  clause_card_eq_iterator_count_canonical exX0X2_canonical 5 (by decide)
 
 /-- the laws on concrete operands -/
 example : exactCard (applyWithFlip exX0X2 exX1 Gen.or_ none none none) +
